@@ -692,6 +692,8 @@ func checkC18(c *Ctx) {
 	flush()
 	st.Wait()
 	n2 := nOK + nErr + nSurplusErr
+	// site family: the bytes of a call are written where (and when) the call is evaluated
+	c18Sites(c, pool)
 	// family 1: every format up to maxLen bytes
 	c.TLC(TLCOpt{Module: "MC_Printf", Cfg: cfg(maxLen, 2, 1), OnVec: onVec, Workers: 12, Heap: "6g"})
 	flush()
